@@ -78,6 +78,9 @@ type SignOpts struct {
 	FullBytesLen int // 0 = absent
 	KDD          *big.Int
 	Shuffle      bool
+	// PartyCount, when > 0, is passed to tss.NewParameters instead of the number of signers (an application that reuses
+	// the committee size of the key for its signing parameters)
+	PartyCount int
 	// Rand, when set, gives party i its randomness source (Parameters.SetRand): used to make the nonce reproducible
 	Rand func(i int) io.Reader
 }
@@ -108,7 +111,7 @@ func ECDSASigning(seed int64, keys []ecdsakeygen.LocalPartySaveData, t int, msg 
 			}
 		}
 		n := newNode(fmt.Sprintf("P%d", i), "all", pid)
-		params := tss.NewParameters(tss.S256(), ctx, pid, len(pids), t)
+		params := tss.NewParameters(tss.S256(), ctx, pid, signPartyCount(o, len(pids)), t)
 		params.SetConcurrency(Concurrency)
 		if o.Rand != nil {
 			params.SetRand(o.Rand(i))
@@ -245,7 +248,7 @@ func EDDSASigning(seed int64, keys []eddsakeygen.LocalPartySaveData, t int, msg 
 			}
 		}
 		n := newNode(fmt.Sprintf("P%d", i), "all", pid)
-		params := tss.NewParameters(tss.Edwards(), ctx, pid, len(pids), t)
+		params := tss.NewParameters(tss.Edwards(), ctx, pid, signPartyCount(o, len(pids)), t)
 		if o.Rand != nil {
 			params.SetRand(o.Rand(i))
 		}
@@ -318,4 +321,11 @@ func EDDSAResharing(seed int64, oldKeys []eddsakeygen.LocalPartySaveData, t int,
 		mkNew()
 	}
 	return w
+}
+
+func signPartyCount(o SignOpts, signers int) int {
+	if o.PartyCount > 0 {
+		return o.PartyCount
+	}
+	return signers
 }
